@@ -21,7 +21,14 @@ func (fb *fileBuilder) printSection(typeName string, wrapper protoreflect.Descri
 	fb.leadingComments(sourceLocation)
 
 	if len(elements) == 0 && len(extensions) == 0 {
-		fb.p(typeName, " ", wrapper.Name(), " {}", inlineComment(sourceLocation))
+		if inline := inlineComment(sourceLocation); len(inline) > 0 {
+			// the parser attaches a trailing comment to the element only when
+			// it follows the opening brace, not the closing one.
+			fb.p(typeName, " ", wrapper.Name(), " {", inline)
+			fb.endElem("}")
+			return nil
+		}
+		fb.p(typeName, " ", wrapper.Name(), " {}")
 		fb.trailingComments(sourceLocation)
 		return nil
 	}
